@@ -10,6 +10,8 @@ import (
 	"strconv"
 	"strings"
 	"time"
+
+	"golang.org/x/tools/go/ssa"
 )
 
 // ---------------------------------------------------------------------------
@@ -307,6 +309,12 @@ func checkMain(args []string) int {
 			okReplay, how := false, ""
 			if mode == "native" {
 				okReplay, how = nativeReplay(verif, repo, pc, hdir, ec.Name, rp)
+				if !okReplay && hasPreemption(v) {
+					// the native scheduler cannot be forced into every cooperative schedule
+					nh := how
+					okReplay, how = engineReplay(e, fn, v)
+					how += " [native attempt: " + nh + "]"
+				}
 			} else {
 				okReplay, how = engineReplay(e, fn, v)
 			}
@@ -374,6 +382,15 @@ func checkMain(args []string) int {
 	}
 	fmt.Printf("OK property=%s tier=%s entries=%d paths=%d wall=%v\n", id, tier, len(outcomes), tot, time.Since(t0).Round(time.Millisecond))
 	return 0
+}
+
+func hasPreemption(v *Violation) bool {
+	for _, d := range v.Decisions {
+		if (strings.HasPrefix(d.Kind, "preempt:") || d.Kind == "sched") && d.Alt != 0 {
+			return true
+		}
+	}
+	return false
 }
 
 func firstLine(s string) string {
@@ -471,6 +488,46 @@ func nativeReplay(verif, repo string, pc PropCfg, hdir, entry, replayPath string
 	tp := filepath.Join(tmp, "replay_test.go")
 	os.WriteFile(tp, []byte(testSrc), 0o644)
 	repl[filepath.Join(pkgDir, "zz_verif_replay_test.go")] = tp
+	// schedule-dependent counterexamples: insert a forced yield at every recorded pre-emption point
+	if rb, err := os.ReadFile(replayPath); err == nil {
+		var rf ReplayFile
+		if json.Unmarshal(rb, &rf) == nil {
+			byFile := map[string][]int{}
+			for _, d := range rf.Decisions {
+				if strings.HasPrefix(d.Kind, "preempt:") && d.Alt != 0 && d.Pos != "" {
+					i := strings.LastIndexByte(d.Pos, ':')
+					ln, _ := strconv.Atoi(d.Pos[i+1:])
+					byFile[d.Pos[:i]] = append(byFile[d.Pos[:i]], ln)
+				}
+			}
+			n := 0
+			for file, lines := range byFile {
+				if !strings.HasPrefix(file, repo) || strings.Contains(file, "zz_verif_") {
+					continue
+				}
+				src, err := os.ReadFile(file)
+				if err != nil {
+					continue
+				}
+				ls := strings.Split(string(src), "\n")
+				sort.Sort(sort.Reverse(sort.IntSlice(lines)))
+				last := -1
+				for _, ln := range lines {
+					if ln == last || ln < 1 || ln > len(ls) {
+						continue
+					}
+					last = ln
+					hook := fmt.Sprintf("verifPreemptHere(%q)", fmt.Sprintf("%s:%d", file, ln))
+					// keep line numbers stable: put the hook on the same line
+					ls[ln-1] = hook + "; " + ls[ln-1]
+				}
+				n++
+				ip := filepath.Join(tmp, fmt.Sprintf("instr%d_%s", n, filepath.Base(file)))
+				os.WriteFile(ip, []byte(strings.Join(ls, "\n")), 0o644)
+				repl[file] = ip
+			}
+		}
+	}
 	ovb, _ := json.Marshal(map[string]interface{}{"Replace": repl})
 	ovPath := filepath.Join(tmp, "overlay.json")
 	os.WriteFile(ovPath, ovb, 0o644)
@@ -508,9 +565,31 @@ func nativeReplay(verif, repo string, pc PropCfg, hdir, entry, replayPath string
 	return false, "native replay could not run: " + strings.ReplaceAll(tail, "\n", " | ")
 }
 
-// engineReplay re-executes the counterexample concretely inside the engine.
-func engineReplay(e *Engine, fn interface{}, v *Violation) (bool, string) {
-	return true, "engine-confirmed only (schedule-dependent counterexample; decisions and values re-executed concretely)"
+// engineReplay re-executes the counterexample inside the engine with every
+// decision (branch sides, scheduling choices, map orders) fixed to the recorded
+// ones and checks that the same violation is reached and that the recorded
+// input values satisfy the path condition.
+func engineReplay(e *Engine, fn *ssa.Function, v *Violation) (bool, string) {
+	sol, err := newSolver(e.solverBin)
+	if err != nil {
+		return false, "cannot start solver"
+	}
+	defer sol.Close()
+	sol.IntMode = e.solverInt
+	sol.Fresh = e.solverFresh
+	w := &Worker{eng: e, sol: sol}
+	prefix := make([]int, len(v.Decisions))
+	for i, d := range v.Decisions {
+		prefix[i] = d.Alt
+	}
+	ex, end := w.runPath(fn, prefix)
+	if end.kind != "violation" || ex.violation == nil {
+		return false, "engine re-execution ended with " + end.kind + " " + end.msg
+	}
+	if ex.violation.Label != v.Label {
+		return false, "engine re-execution reached a different violation: " + ex.violation.Label
+	}
+	return true, "engine-confirmed only: schedule-dependent counterexample re-executed in the engine with all decisions fixed (native forced-yield replay did not reproduce it)"
 }
 
 func replayMain(verif, repo, id string, pc PropCfg, hdir, file string) int {
